@@ -37,14 +37,17 @@ inline std::vector<Set> catalogue(int dim) {
 }
 
 // rotation catalogue
-inline std::vector<M3> rotations(int dim, bool thorough = false) {
+inline std::vector<M3> rotations(int dim, int level = 0) {   // level 0 boundary set, 1 + catalogue, 2 + dense sweep
+  const bool thorough = level >= 1;
   std::vector<M3> v;
   auto aa = [](LD a, V3 ax) { ax.normalize(); M3 K; K << 0, -ax[2], ax[1], ax[2], 0, -ax[0], -ax[1], ax[0], 0; return (M3::Identity() + sinl(a) * K + (1 - cosl(a)) * K * K).eval(); };
   const LD PI = 3.14159265358979323846264338327950288L;
   if (dim == 2) { for (LD a : {0.0L, 1e-6L, -1e-6L, 0.1L, -0.1L, PI / 2, -PI / 2, PI - 1e-6L, -(PI - 1e-6L), PI}) v.push_back(aa(a, V3(0, 0, 1)));
-    if (thorough) for (int k = 1; k < 72; ++k) v.push_back(aa(-PI + k * PI / 36 + 0.003L, V3(0, 0, 1))); }
+    if (thorough) for (int k = 1; k < 72; ++k) v.push_back(aa(-PI + k * PI / 36 + 0.003L, V3(0, 0, 1)));
+    if (level >= 2) for (int k = 0; k < 720; ++k) v.push_back(aa(-PI + k * PI / 360 + 0.0007L, V3(0, 0, 1))); }
   else { for (V3 ax : {V3(1, 0, 0), V3(0, 1, 0), V3(0, 0, 1), V3(1, 1, 0), V3(1, -1, 1), V3(-2, 1, 3)}) for (LD a : {0.0L, 1e-6L, 0.1L, PI / 2, PI - 1e-6L, PI}) v.push_back(aa(a, ax));
-    if (thorough) for (V3 ax : {V3(1, 0, 0), V3(0, 1, 0), V3(0, 0, 1), V3(1, 1, 0), V3(1, -1, 1), V3(-2, 1, 3), V3(0.1L, -1, 0.2L), V3(3, 2, -1)}) for (LD a : {1e-3L, 0.5L, 1.0L, 2.0L, 2.5L, 3.0L, PI - 1e-3L, PI - 1e-9L}) v.push_back(aa(a, ax)); }
+    if (thorough) for (V3 ax : {V3(1, 0, 0), V3(0, 1, 0), V3(0, 0, 1), V3(1, 1, 0), V3(1, -1, 1), V3(-2, 1, 3), V3(0.1L, -1, 0.2L), V3(3, 2, -1)}) for (LD a : {1e-3L, 0.5L, 1.0L, 2.0L, 2.5L, 3.0L, PI - 1e-3L, PI - 1e-9L}) v.push_back(aa(a, ax));
+    if (level >= 2) for (int i = 0; i < 24; ++i) { auto h = pattern(i + 31); V3 ax(h[0], h[1], h[2] + 0.013L); for (int k = 1; k <= 16; ++k) v.push_back(aa(k * PI / 16 - (k == 16 ? 1e-4L : 0.0L), ax)); } }
   return v;
 }
 
